@@ -79,7 +79,8 @@ Definition del2 (x : N * N) (l : list (N * N)) : list (N * N) :=
 
 Definition RESERVED_PING : N := 1.
 Definition RESERVED_UNREACH : N := 2.
-Definition reservedN (name : N) : bool := (name =? RESERVED_PING) || (name =? RESERVED_UNREACH).
+Definition TOO_LONG : N := 3.     (* any service name of more than 8 bytes: refused like a reserved one *)
+Definition reservedN (name : N) : bool := (name =? RESERVED_PING) || (name =? RESERVED_UNREACH) || (name =? TOO_LONG).
 
 Definition is_down (s : st) (n : N) : bool := memN n (down s).
 
